@@ -70,7 +70,8 @@ def evaluate(d, extra_props=()):
         for p in (prop,) + tuple(extra_props):
             t0 = time.time()
             rc, out = sh('./check %s --tier quick' % p, cwd=VERIF, timeout=3600,
-                         env=({'SC3_REPO': REPO} if REPO != '/repo' else {}))
+                         env=dict({'VERIF_EVIDENCE_DIR': os.path.join(VERIF, '.work', 'seed_evidence')},
+                                  **({'SC3_REPO': REPO} if REPO != '/repo' else {})))
             vl = [l for l in out.split('\n') if l.startswith('VIOLATION')]
             checks[p] = {'exit': rc, 'violations': len(vl),
                          'first': [l[:400] for l in vl[:3]],
